@@ -89,7 +89,15 @@ func solve(outDir, name, body string, timeoutS, seed int, wantModel, crossCheck 
 			_ = cmd.Run()
 			el := time.Since(start).Seconds()
 			o := out.String()
-			first := strings.TrimSpace(strings.SplitN(strings.TrimSpace(o), "\n", 2)[0])
+			first := ""
+			for _, l := range strings.Split(strings.TrimSpace(o), "\n") {
+				l = strings.TrimSpace(l)
+				if l == "" || strings.HasPrefix(l, "WARNING:") {
+					continue // z3 warns about patterns it will not use; the answer follows
+				}
+				first = l
+				break
+			}
 			res := "unknown"
 			switch {
 			case first == "unsat":
